@@ -9,7 +9,7 @@ import (
 func init() {
 	register(&Property{
 		ID:          "C09",
-		Explanation: "Decides narrow structural clauses of 'the log store returns the logical log': the recorded logical end (max index) is kept in the KV record and in the cache together - every non-reset update of the cached max index is paired with the KV put in the same write batch; recording entries and recording a snapshot both update the max index on every path; every entry-iteration implementation clamps its upper bound by the max index it is given, and the store obtains that bound from the max-index record before iterating or computing the range; gaps stop an iteration (expected-index test); read-side storage errors propagate. Equivalence with a reference log over operation sequences (batch merging, Tan index merge/overwrite arithmetic) is declined.",
+		Explanation: "Decides narrow structural clauses of 'the log store returns the logical log': the recorded logical end (max index) is kept in the KV record and in the cache together - every non-reset update of the cached max index is paired with the KV put in the same write batch; recording entries and recording a snapshot both update the max index on every path; every entry-iteration implementation clamps its upper bound by the max index it is given, and the store obtains that bound from the max-index record before iterating or computing the range; gaps stop an iteration (expected-index test); read-side storage errors propagate. Equivalence with a reference log over operation sequences (batch merging, Tan index merge/overwrite arithmetic) is declined. The log reader keeps nothing read from the store; the batched ranged delete never reaches the batch holding the index (affine bound).",
 		NotCovered:  "equivalence with the logical log model over arbitrary save/remove/reopen sequences; Tan index arithmetic (value-level; not applicable to static analysis)",
 		Run:         runC09,
 	})
